@@ -524,21 +524,55 @@ def gen_scene(rng, quick):
             scene["then"] = {"edit": "translate", "vector": [rng.range(-8, 8) / 4.0, rng.range(-8, 8) / 4.0, f32(rng.uniform() * 3 - 1.5)]}
         else:
             scene["then"] = {"edit": "scale", "factor": rng.choice([0.5, 1.5, 2.0])}
+    return shift_scene(scene, rng)
+
+
+SHIFTS = [0.0, 0.0, 35.0, 410.0, 1600.0, 1.0e4]
+
+
+def shift_scene(scene, rng, shift=None):
+    """the whole scene (every conformer, the grid, coordinates assigned later) far from the origin: distances are what they
+    were, coordinates are large.  All shifted coordinates are binary32 values, so they are exact inputs of the binary32 kernels;
+    error model for the bound: the kernel forms a − g first — exact for binary32 numbers of like magnitude whose difference is
+    small (the difference of two multiples of ulp(S) below 2^24·ulp(S) is representable) — so the relative error of d² stays
+    ≈ 3·2^-24 whatever the shift, and the exclusion band (2e-5·r²) of the unshifted scenes applies unchanged."""
+    if shift is None:
+        mag = rng.choice(SHIFTS)
+        shift = [mag * rng.choice([1.0, -1.0]), mag * rng.choice([0.0, 1.0, -0.5]), mag * rng.choice([0.0, 0.25])]
+    if not any(shift):
+        return scene
+    sh = lambda p: [f32(p[0] + shift[0]), f32(p[1] + shift[1]), f32(p[2] + shift[2])]      # noqa: E731
+    scene["coords"] = [[sh(a) for a in c] for c in scene["coords"]]
+    if scene.get("grid") is not None:
+        scene["grid"] = [sh(g) for g in scene["grid"]]
+        if scene["grid_style"] == "random64":
+            scene["grid_style"] = "random32"
+    if scene.get("then", {}).get("edit") == "assign":
+        scene["then"]["coords"] = [[sh(a) for a in c] for c in scene["then"]["coords"]]
+    scene["shift"] = shift
     return scene
 
 
 def gen_big_scene(rng, quick, i):
     """sizes above any plausible internal batch / block size: many grid points, many atoms, many conformers"""
-    kind = ["grid", "grid", "atoms", "conformers"][i % 4]
+    kind = ["pairs", "grid", "grid", "atoms", "conformers"][i % 5]
     s = gen_scene(rng, quick)
     n_atoms = rng.range(2, 6) if kind != "atoms" else rng.range(100, 260)
-    n_conf = rng.range(1, 3) if kind != "conformers" else rng.range(17, 70)
+    n_conf = rng.range(17, 70) if kind == "conformers" else rng.range(20, 40) if kind == "pairs" else rng.range(1, 3)
     extent = 3.0 if kind != "atoms" else 6.0
     s["elements"] = [rng.choice(ELEMENTS) for _ in range(n_atoms)]
     s["coords"] = [[[f32((rng.uniform() * 2 - 1) * extent) for _ in range(3)] for _ in range(n_atoms)] for _ in range(n_conf)]
     s["charges"] = [[f32(rng.uniform() * 2 - 1) for _ in range(n_atoms)] for _ in range(n_conf)]
     s["weights"] = [rng.choice([1.0, 0.5, 2.0, 0.25 + rng.uniform()]) for _ in range(n_conf)]
     npts = rng.choice([4097, 5000, 8193, 9001] if quick else [4097, 5000, 8192, 8193, 9001, 13000, 16385, 20001]) if kind == "grid" else rng.range(300, 700)
+    if kind == "pairs":
+        # at least 2^17 (conformer, grid point) pairs; conformers that do not superimpose and cost differently to query:
+        # every other one lies far outside the grid (all its answers are -1, found quickly)
+        npts = (1 << 17) // n_conf + rng.range(1, 300)
+        for c in range(n_conf):
+            off = [0.0, 0.0, 0.0] if c % 2 == 0 else [f32(9.0 + 3.0 * c), 0.0, 0.0]
+            wob = [f32((rng.uniform() * 2 - 1) * 0.8) for _ in range(3)]
+            s["coords"][c] = [[f32(a[0] + off[0] + wob[0]), f32(a[1] + wob[1]), f32(a[2] + wob[2])] for a in s["coords"][c]]
     pts = np.array([rng.next() for _ in range(npts * 3)], dtype=np.uint64)
     g = ((pts >> np.uint64(11)).astype(np.float64) / float(1 << 53) * 2 - 1) * (extent + 1.5)
     g = g.reshape(npts, 3)
@@ -552,8 +586,11 @@ def gen_big_scene(rng, quick, i):
     s["big"] = kind
     s["style"] = "random"
     s.pop("then", None)
-    if rng.chance(1, 2):
+    s.pop("shift", None)
+    if rng.chance(1, 2) and kind != "pairs":
         s["then"] = {"edit": "translate", "vector": [f32(rng.uniform() * 2 - 1), f32(rng.uniform() * 2 - 1), f32(rng.uniform())]}
+    if kind in ("grid", "atoms") and rng.chance(1, 2):
+        shift_scene(s, rng, [rng.choice([410.0, -1600.0, 1.0e4]), rng.choice([0.0, 35.0]), 0.0])
     return s
 
 
@@ -664,6 +701,10 @@ def check_scenes(ctx, n_cases, corpus, big=0):
         ctx.count("scene-grid-points" + ("<=400" if grid.shape[0] <= 400 else "<=4096" if grid.shape[0] <= 4096 else ">4096"))
         if s.get("phase"):
             ctx.count(f"scene-second-query-after-edit:{s['then']['edit']}")
+        if s.get("shift"):
+            ctx.count(f"scene-shifted-by:{max(abs(x) for x in s['shift']):g}")
+        if s.get("big") == "pairs":
+            ctx.count("scene-nearest-pairs>=2^17")
         if "twin_of_previous" in s:
             ctx.count("scene-same-formula-other-atom-order:" + ("evaluated-second" if s["twin_of_previous"] else "evaluated-first"))
         ctx.count(f"scene-conformers={n_conf}")
@@ -867,7 +908,9 @@ def run(ctx):
                 "strided/transposed/reversed/column-strided/mixed-dtype arguments; non-trivial = a non-contiguous argument. "
                 "Grids: dyadic boxes (exact comparison) and general float boxes (tolerance; width/spacing within 1e-4 of an "
                 "integer skipped); non-trivial = more than one point. Scenes: 1..5, 11..30 or 31..60 atoms (beyond one KD-tree leaf of 10 points) x 1..4 conformers, rectangular or "
-                "random float32/float64 grids; a third of the scenes are followed or preceded, in the same process, by an ensemble of the same formula "
+                "random float32/float64 grids; two thirds of the scenes are translated as a whole by 35, 410, 1600 or 1e4 Å (binary32 coordinates); "
+                "one large scene per quick run has >= 2^17 (conformer, grid point) pairs with 20..40 non-superimposed conformers; "
+                "a third of the scenes are followed or preceded, in the same process, by an ensemble of the same formula "
                 "whose elements come in another atom order; a third of the scenes have a conformer of weight exactly 0 (explicit / underflowed) or 5e-324 placed "
                 "where no other conformer reaches, with grid points around it; half of the scenes query, edit the SAME objects in place (coords assignment / translate / scale) and "
                 "query again; additional large scenes: grids of 4097..20001 points, 100..260 atoms, 17..70 conformers (compared with the brute-force "
@@ -887,7 +930,7 @@ def run(ctx):
     check_kernels(ctx, 250 if q else 8000, corpus)
     check_prebuilt(ctx, 80 if q else 2500)
     check_grids(ctx, 60 if q else 1500, corpus)
-    check_scenes(ctx, 24 if q else 600, corpus, big=4 if q else 30)
+    check_scenes(ctx, 24 if q else 600, corpus, big=5 if q else 30)
 
 
 def replay(ctx, path):
